@@ -221,6 +221,31 @@ impl<'a> Tape<'a> {
     }
 }
 
+/// Splits an input tape into a short plan header and the content rest. Decisions that must not
+/// starve when the content generator eats the tape (how many operations, which edits) are drawn
+/// from the header; a derived pseudo-random tape (pure function of the header) feeds per-node coins.
+pub fn split_plan(tape: &[u8], header: usize) -> (&[u8], &[u8]) {
+    let h = header.min(tape.len());
+    (&tape[..h], &tape[h..])
+}
+
+/// `n` pseudo-random bytes that are a pure function of `seed`; an all-zero / empty seed gives zeros,
+/// so shrinking the seed shrinks the derived choices to the simplest ones
+pub fn expand(seed: &[u8], n: usize) -> Vec<u8> {
+    if seed.iter().all(|b| *b == 0) {
+        return vec![0; n];
+    }
+    let mut x = fp64(seed) | 1;
+    let mut out = Vec::with_capacity(n);
+    for _ in 0..n {
+        x ^= x << 13;
+        x ^= x >> 7;
+        x ^= x << 17;
+        out.push((x >> 24) as u8);
+    }
+    out
+}
+
 /// deterministic pool element: `len` bytes derived from (domain, k)
 pub fn pool_bytes(k: u8, len: usize, domain: u8) -> Vec<u8> {
     let mut out = Vec::with_capacity(len);
